@@ -483,6 +483,11 @@ def build_image(img, rng, policy="decoy", mode="random"):
             "sar_image_data_line_number": line_number,
         }
         line_number += rng.randrange(1, 4)
+        numbering = img.get("line_numbers")
+        if numbering == "restart" and i + 1 == (lines + 1) // 2:
+            line_number = rng.randrange(1, 3)  # the numbering starts again half way (a second segment)
+        elif numbering == "zeros" and i + 1 >= max(1, lines - 1 - lines // 3):
+            line_number = 0  # trailing lines without a number
         # times: first line carries the reference instant, later lines later the same day
         year_i, doy_i = inst["year"], inst["doy"]
         if i == 0:
